@@ -59,7 +59,7 @@ def run(res, tier):
     if "mju_isBad" not in um.funcs or "mj_warning" not in uc.funcs:
         raise AnalysisError("anchor mju_isBad / mj_warning missing")
     enum = ctypeinfo.load()["enumerators"]
-    F = pipeline.Flattener(uf)
+    F = pipeline.Flattener(uf, stop=pipeline.STAGES[uf.tu])
 
     # ------------------------------------------------------------------ R-MUSTPASS
     res.rule("R-MUSTPASS", "checks placed before the first stage / after acceleration and before integration", floor=6)
